@@ -497,7 +497,12 @@ func (ex *Exec) obligation(kind, label string, ob *Term, margin *Term, site ssa.
 	// cross-solver diffing: a deterministic sample of decided obligations is re-decided by z3 5.1.0
 	ex.xcount++
 	if ex.xsample > 0 && ex.xcount%ex.xsample == 0 && (r == "unsat" || r == "sat") {
-		other := CrossCheck("z3-new", []string{"-T:20"}, ex.sol.script([]*Term{neg}, nil), 25)
+		q := []*Term{neg}
+		axs, _ := ex.relevantAxioms(q)
+		for _, e := range axs {
+			q = append(q, e.fact)
+		}
+		other := CrossCheck("z3-new", []string{"-T:20"}, ex.sol.script(q, nil), 25)
 		ex.xchecked++
 		if (other == "sat" || other == "unsat") && other != r {
 			ex.xdisagree = append(ex.xdisagree, label+" @ "+pos+": z3 4.8.12="+r+" z3 5.1.0="+other)
@@ -663,6 +668,29 @@ var vrtIntrinsics = map[string]intrinsicFn{
 		v := ex.b.Var(name, SReal)
 		ex.nondets[name] = v
 		return F{T: v}
+	},
+	"FloatN": func(ex *Exec, _ *ssa.Function, a []Value, _ ssa.Instruction) Value {
+		// a float64 that may also be NaN: value variable plus a symbolic definedness flag
+		name := nameOf(ex, a)
+		if ex.concrete != nil {
+			if ex.concBool != nil {
+				if d, ok := ex.concBool[name+"#def"]; ok && !d {
+					return F{T: ex.b.Rat(ratZero), D: ex.b.False}
+				}
+			}
+			if r, ok := ex.concrete[name]; ok {
+				return F{T: ex.b.Rat(r)}
+			}
+			return F{T: ex.b.Rat(ex.seedGen(name))}
+		}
+		v := ex.b.Var(name, SReal)
+		d := ex.b.Var(name+"#def", SBool)
+		ex.nondets[name] = v
+		ex.nondets[name+"#def"] = d
+		return F{T: v, D: d}
+	},
+	"IsNaN": func(ex *Exec, _ *ssa.Function, a []Value, _ ssa.Instruction) Value {
+		return ex.normInt(ex.b.Not(ex.defTerm(a[0].(F))))
 	},
 	"Assume": func(ex *Exec, _ *ssa.Function, a []Value, site ssa.Instruction) Value {
 		ex.assume(a[0], ex.pos2s(site.Pos()))
